@@ -11,7 +11,7 @@ PKG = simrt.PKG
 HOOKS = ('setUp', 'tearDown', 'testSetUp', 'testTearDown')
 
 DEFAULT_PROFILE = dict(
-    min_layers=1, max_layers=5, p_inst=0.3, p_hook=0.75, max_bases=2,
+    min_layers=1, max_layers=5, p_inst=0.3, p_hook=0.75, max_bases=3,
     max_modules=2, max_classes=3, max_tests=4, p_unit=0.2, p_level=0.0, p_suite_tree=0.35,
     p_subtests=0.12, p_deco_skip=0.08, p_deco_xfail=0.08, p_setup=0.5, p_teardown=0.5,
     p_cleanup=0.2, p_layer_as_str=0.1, p_suite_layer=0.3, max_total_tests=12,
@@ -41,18 +41,37 @@ def gen_layers(rng, p):
         nb = 0
         if cands:
             r = rng.random()
-            nb = 0 if r < 0.35 else (1 if r < 0.8 else 2)
+            nb = 0 if r < 0.35 else (1 if r < 0.75 else (2 if r < 0.93 else 3))
             nb = min(nb, len(cands), p['max_bases'])
         bases = rng.sample(cands, nb) if nb else []
-        if kind == 'class' and len(bases) == 2:
-            # type() needs a consistent MRO: refuse a base that is an ancestor of the other
-            a, b = bases
-            if a in _closure_of(layers, b) or b in _closure_of(layers, a):
-                bases = [a]
+        if kind == 'class' and len(bases) >= 2:
+            bases = consistent_bases(layers, bases)
         hooks = [h for h in HOOKS if rng.random() < p['p_hook']]
         name = family[i] if family and i < len(family) else 'L%d' % i
         layers.append({'name': name, 'kind': kind, 'bases': bases, 'hooks': hooks})
     return layers
+
+
+def consistent_bases(layers, bases):
+    """Largest prefix-wise subset of `bases` (in this order) for which type() finds an MRO;
+    redundant bases are kept when Python allows them (derived before its ancestor)."""
+    idx = {L['name']: L for L in layers}
+    built = {}
+
+    def cls(n):
+        if n not in built:
+            L = idx[n]
+            bs = tuple(cls(b) for b in L['bases'] if idx[b]['kind'] == 'class')
+            built[n] = type(n, bs or (object,), {})
+        return built[n]
+    out = []
+    for b in bases:
+        try:
+            type('_probe', tuple(cls(x) for x in out + [b]), {})
+            out.append(b)
+        except TypeError:
+            continue
+    return out
 
 
 def _closure_of(layers, name):
